@@ -573,6 +573,13 @@ func seqCase(c *Case, lean *LeanDriver) Verdict {
 			steps++
 			d := c.clone()
 			d.Query = qs
+			// per-query options must not outlive their query
+			switch r.Intn(4) {
+			case 0:
+				d.QLookback = []int64{1000, 30000, 600000, 7000}[r.Intn(4)]
+			case 1:
+				d.QLookback = 0
+			}
 			st := NewMemStorage(cur)
 			ctx, cancel := bg()
 			q, err := d.NewQuery(eng, st)
